@@ -564,3 +564,101 @@ def rule_factor_order(ck, units, floor=4):
                               show(n)[:50], f.where(n)))
             if k:
                 done.add((f.q, f.line))
+
+
+def rule_scratch_fits(ck, units, floor=2):
+    """spgemm_rmerge gives prod_row_width / prod_row sub-buffers of one per-thread scratch vector: t, t + W, t + 2 * W with W the widest
+    row of the product.  Every sub-buffer receives a merged row of up to W entries, so a vector whose sub-buffers start at k * W needs
+    (max k + 1) * W elements.  Decided by evaluating the resize argument and the pointer offsets as multiples of W (locals that name a
+    size or a sub-buffer are resolved)."""
+    import idioms
+    ck.rule('rmerge-scratch-fits', 'spgemm_rmerge: a per-thread scratch vector resized to c * W holds every sub-buffer handed to the row kernels: the largest offset k * W used with it '
+                                   'satisfies k + 1 <= c', floor)
+    done = set()
+    for u in units.values():
+        for f in u.funcs:
+            if f.q != 'amgcl::backend::spgemm_rmerge' or f.body is None or (f.q, f.line) in done:
+                continue
+            done.add((f.q, f.line))
+
+            def res(e):
+                return unwrap(idioms._resolve_local(f, e))
+
+            def mult(e, W):
+                """e as an integer multiple of the variable W (None if not of that form)"""
+                e = res(e)
+                if e is None:
+                    return None
+                if e['k'] == 'ref':
+                    return 1 if e['d'] == W else None
+                if e['k'] == 'lit' and str(e.get('v', '')).isdigit():
+                    return 0 if int(e['v']) == 0 else None
+                if e['k'] == 'bin' and e['op'] == '*':
+                    for a, b in ((e['x'], e['y']), (e['y'], e['x'])):
+                        a_ = res(a)
+                        if a_ is not None and a_['k'] == 'lit' and str(a_.get('v', '')).isdigit():
+                            m = mult(b, W)
+                            return None if m is None else int(a_['v']) * m
+                if e['k'] == 'bin' and e['op'] == '+':
+                    a, b = mult(e['x'], W), mult(e['y'], W)
+                    return None if a is None or b is None else a + b
+                return None
+
+            def base_and_offset(e, W, depth=0):
+                """(scratch vector decl, k) for an expression that points k * W elements into tmp[...]"""
+                e = unwrap(e)
+                if e is None or depth > 4:
+                    return None
+                if e['k'] == 'ref' and f.decl(e['d']).get('k') == 'local':
+                    inits = [v['init'] for n in f.nodes.values() if n['k'] == 'decl' for v in n['v'] if v['d'] == e['d'] and v.get('init') is not None]
+                    return base_and_offset(inits[0], W, depth + 1) if len(inits) == 1 else None
+                if e['k'] == 'bin' and e['op'] == '+':
+                    for p_, q in ((e['x'], e['y']), (e['y'], e['x'])):
+                        b = base_and_offset(p_, W, depth + 1)
+                        m = mult(q, W)
+                        if b is not None and m is not None:
+                            return b[0], b[1] + m
+                    return None
+                # &tmp[tid][0]  /  tmp[tid].data()
+                for x in walk(e):
+                    if x['k'] == 'ref' and x['d'] in vecs:
+                        return x['d'], 0
+                return None
+            # resize sites: tmp[i].resize(c * W)
+            sizes, vecs = {}, set()
+            W = None
+            for n in f.nodes.values():
+                if n['k'] == 'call' and n.get('m') == 'resize' and n.get('obj') is not None and n.get('a'):
+                    roots = [x['d'] for x in walk(n['obj']) if x['k'] == 'ref' and f.decl(x['d']).get('k') == 'local']
+                    # `for (auto &buf : tmp) buf.resize(..)`: the loop variable stands for the elements of its range
+                    for a in f.ancestors(n):
+                        if a['k'] == 'rfor' and isinstance(a.get('var'), dict) and a['var'].get('d') in roots and a.get('range') is not None:
+                            roots = [x['d'] for x in walk(a['range']) if x['k'] == 'ref' and f.decl(x['d']).get('k') == 'local']
+                    if not roots:
+                        continue
+                    arg = n['a'][0]
+                    refs = [x['d'] for x in idioms.deep_nodes(f, arg) if x['k'] == 'ref' and f.decl(x['d']).get('k') == 'local' and idioms._resolve_local(f, x) is x]
+                    for w in refs:
+                        c = mult(arg, w)
+                        if c is not None and c > 0:
+                            W = w
+                            sizes[roots[0]] = (c, n)
+                            vecs.add(roots[0])
+            if W is None:
+                continue
+            used = {}
+            for n in f.nodes.values():
+                if n['k'] == 'call' and (n.get('f') or '').split('<')[0] in ('amgcl::backend::prod_row_width', 'amgcl::backend::prod_row'):
+                    for a in n.get('a', []):
+                        bo = base_and_offset(a, W)
+                        if bo is not None and bo[0] in sizes:
+                            if bo[0] not in used or used[bo[0]][0] < bo[1]:
+                                used[bo[0]] = (bo[1], n, a)
+            for v, (c, site) in sorted(sizes.items()):
+                if v not in used:
+                    continue
+                k, call, arg = used[v]
+                ok = k + 1 <= c
+                ck.ob('rmerge-scratch-fits', 'spgemm_rmerge|%s' % f.decl(v)['n'], f.where(site), ok, '' if ok else
+                      '`%s` is resized to %d * %s per thread at %s, but `%s` (offset %d * %s) is handed to %s at %s as a buffer for a merged row of up to %s entries: the row kernel writes '
+                      'past the end of the vector' % (f.decl(v)['n'], c, f.decl(W)['n'], f.where(site), show(arg)[:40], k, f.decl(W)['n'], (call.get('f') or '').split('::')[-1], f.where(call), f.decl(W)['n']))
